@@ -180,7 +180,7 @@ Definition marshal_check (id : N) (pins : list entry) (obs : option (list entry)
 
 (* raft: a history of SnapshotSave / CleanupRaft / bare data folders on one directory; after every operation the
    listing (folder payloads resolved by reading them offline) and what OfflineState / LastStateRaw return *)
-Inductive sop := OSave (i : N) | OClean | OBare (marker : N) | OStart (* a real peer is started on the data folder, then shut down *).
+Inductive sop := OSave (i : N) | OClean | OBare (marker : N) | OMore (i : N) (* a newer snapshot written into the same data folder, as a running peer does *) | OStart (* a real peer is started on the data folder, then shut down *).
 
 Definition snap_listing (t : ptable) (w : nat) (d : dir snapshot) : listing :=
   map (fun f => match f with
@@ -200,6 +200,7 @@ Definition sop_model (keep : nat) (t : ptable) (op : sop) (d : dir snapshot) : d
   | OSave i => snapshot_save keep (marshal (fun x => x) (pinset_of t i)) d
   | OClean => cleanup keep d
   | OBare m => mk_dir (Some (m, None)) (olds d)
+  | OMore i => mk_dir (Some (match live d with Some (m, _) => m | None => 0 end, Some (marshal (fun x => x) (pinset_of t i)))) (olds d)
   | OStart => d
   end.
 
@@ -223,7 +224,7 @@ Fixpoint snap_check (id : N) (keep : nat) (t : ptable) (before : listing) (ops :
        then [] else [(id, 1, 0)]) ++
       (* saving a pinset as a snapshot and reading it offline reproduces it *)
       (match op with
-       | OSave i => if entries_eqb off (pinset_of t i) && entries_eqb raw (pinset_of t i) then [] else [(id, 15, 0)]
+       | OSave i | OMore i => if entries_eqb off (pinset_of t i) && entries_eqb raw (pinset_of t i) then [] else [(id, 15, 0)]
        | OStart => match hd None before with
                    | Some (_, Some i) => if entries_eqb off (pinset_of t i) then [] else [(id, 15, 0)]
                    | _ => [] end
